@@ -64,6 +64,10 @@ func (p *{{$TypeName}}) InitDefault() {
 {{if eq .Category "union"}}
 func (p *{{$TypeName}}) CountSetFields{{$TypeName}}() int {
 	count := 0
+	if p == nil {
+		// Write counts before it looks at the receiver
+		return count
+	}
 	{{- range .Fields}}
 	{{- if SupportIsSet .Field}}
 	if p.{{.IsSetter}}() {
